@@ -900,10 +900,19 @@ def tokenize(content: str, lenient: bool = False) -> tuple[list[Token], list[Any
                     value = _ESCAPE_SEQUENCE.sub(lambda m: _UNESCAPE_MAP[m.group(1)], value)
                 elif token_type == TokenType.NUMBER:
                     # Convert to int or float, but preserve raw lexeme for fidelity (GH#66)
-                    if "." in matched_text or "e" in matched_text.lower():
-                        value = float(matched_text)
-                    else:
-                        value = int(matched_text)
+                    try:
+                        if "." in matched_text or "e" in matched_text.lower():
+                            value = float(matched_text)
+                            if value in (float("inf"), float("-inf")):
+                                raise ValueError("float literal out of range")
+                        else:
+                            value = int(matched_text)
+                    except ValueError as e:
+                        # Oversized literals (1e400 -> inf, integers beyond the digit limit)
+                        # are refused with a positioned error instead of leaking ValueError
+                        # or producing "inf", which no OCTAVE reader accepts.
+                        shown = matched_text if len(matched_text) <= 24 else matched_text[:24] + "..."
+                        raise LexerError(f"Number literal out of range: '{shown}'", line, column, "E005") from e
                     # Store raw lexeme for multi-word value reconstruction
                     raw_lexeme = matched_text
                 elif token_type == TokenType.BOOLEAN:
